@@ -411,8 +411,10 @@ def known_class(case, failure, pdf):
     if op in ("min", "max") and axis0:
         if has_nullable and not is_df and k.get("skipna") is False and failure == "dask-raises:TypeError":
             return "nullable-skipna-false"
-        if empty and failure in ("wrong-dtype", "wrong-value", "dask-raises:TypeError"):
+        if empty and failure in ("wrong-dtype", "dask-raises:TypeError"):
             return "empty-partition"
+        if empty and failure == "wrong-value" and k.get("skipna") is False:
+            return "skipna-false-empty-partition"
     if op in ("var", "std", "sem") and axis0:
         if is_df and has_nullable and failure == "dask-raises:TypeError":
             return "nullable-int-column"
